@@ -73,6 +73,15 @@ pub fn gen_cases(cfg: &RunCfg) -> Vec<Case> {
             let vn = format!("vup{set}x{mi}e");
             mods[mi].defs.push(D { text: format!("{vn} {tn} ::= {{ a 1 }}"), name: vn, kind: Kind::Value, shape: "UpObj".into(), refs: vec![tn], fault: None });
         }
+        // a struct value of a type whose name has lower-case letters only directly behind hyphens (`PDU-v2-s3-m1`): an
+        // ordinary type reference, and the value an ordinary value
+        if set % 5 == 3 {
+            let mi = set % n_mod;
+            let tn = format!("PDU-v2-s{set}-m{mi}");
+            mods[mi].defs.push(D { text: format!("{tn} ::= SEQUENCE {{ a INTEGER, b BOOLEAN }}"), name: tn.clone(), kind: Kind::Type, shape: "Seq".into(), refs: vec![], fault: None });
+            let vn = format!("hypv{set}x{mi}e");
+            mods[mi].defs.push(D { text: format!("{vn} {tn} ::= {{ a 1, b TRUE }}"), name: vn, kind: Kind::Value, shape: "vSeq".into(), refs: vec![tn], fault: None });
+        }
         // only type and value assignments with ordinary names are replaced
         let eligible: Vec<(usize, usize)> = mods
             .iter()
